@@ -60,13 +60,35 @@ Definition local_head (s : sstate) : option hdr :=
 
 Definition hgt (o : option hdr) : N := match o with Some h => h_height h | None => 0 end.
 
-(** syncStore.Append of ONE header, as seen through syncStore.Head:
-    empty -> h; h >= head and h = head+1 -> h; otherwise the pointer stays *)
+(** syncStore.Append of ONE header, as seen through syncStore.Head (the cached
+    head pointer), in code order:
+    - empty store: the header becomes the head;
+    - h >= head: the head itself again (same height AND same hash) is skipped
+      without error (since /repo 80904e6; before, it raised errNonAdjacent - the
+      pointer did not move either way); otherwise h must be head+1 (uint64) and
+      becomes the head, else errNonAdjacent and the pointer stays;
+    - h < head: the check is skipped, the pointer stays.
+    [store_append_err] says whether the call returns errNonAdjacent (setLocalHead
+    ignores that error; renewTail then forces the write into the underlying store,
+    which does not move the pointer). *)
+Definition same_head (sh h : hdr) : bool := (h_height h =? h_height sh) && (h_id h =? h_id sh).
+
 Definition store_append (st : option hdr) (h : hdr) : option hdr :=
   match st with
   | None => Some h
   | Some sh =>
-    if (h_height sh <=? h_height h) && (h_height h =? wrap64 (h_height sh + 1)) then Some h else st
+    if h_height sh <=? h_height h then
+      if same_head sh h then st
+      else if h_height h =? wrap64 (h_height sh + 1) then Some h else st
+    else st
+  end.
+
+Definition store_append_err (st : option hdr) (h : hdr) : bool :=
+  match st with
+  | None => false
+  | Some sh =>
+    (h_height sh <=? h_height h) && negb (same_head sh h) &&
+    negb (h_height h =? wrap64 (h_height sh + 1))
   end.
 
 (** ranges.Add as seen through ranges.Head: a header not above the head is ignored *)
